@@ -4,6 +4,7 @@
 Nothing here judges: it executes, projects and logs.  All verdicts come from TLC.
 """
 import csv
+import json
 import io
 import os
 from datetime import datetime, timezone
@@ -211,6 +212,10 @@ class Db:
         mk = {} if via == "handle" else ({"measurement": self.meas_name(m)} if m != NONE else {})
         if op == "insert":
             p = th.point(tf, a["p"])
+            key = json.dumps(a["p"], sort_keys=True)
+            if a.get("alias") and getattr(self, "_last_insert", (None, None))[0] == key:
+                p = self._last_insert[1]          # the very same Point object again (memory storage keeps the object itself)
+            self._last_insert = (key, p)
             if via == "handle":
                 return target.insert(p)
             if a.get("compact"):
